@@ -24,6 +24,7 @@ ASSUMPTIONS = [
     "`out` is always supplied (the default location is documented differently in manual and code and is not judged)",
     "vf/ref/bencode.py strict decoder",
 ]
+FUZZ_RUNS = 40000   # thorough tier: libFuzzer runs per campaign of the coverage-guided stage (vf/fuzz.py)
 BUDGET = {
     "quick": {"examples": 300, "workers": 8, "time_cap": 70},
     "thorough": {"examples": 10000, "workers": 14, "time_cap": 900},
